@@ -239,6 +239,7 @@ func (run *PropRun) report(w *World, t0 time.Time) int {
 	var samples []map[string]interface{}
 	exit := 0
 	knownPrinted := map[string]bool{}
+	var knownLines []string
 	var failed []*Result
 	var slow []string
 	for _, r := range run.Results {
@@ -268,6 +269,7 @@ func (run *PropRun) report(w *World, t0 time.Time) int {
 		if kf := isKnown(r.Ob.Name, shortFuncName(r.VC.root.String())); kf != nil {
 			if !knownPrinted[kf.ob] {
 				fmt.Printf("KNOWN-FINDING: property=%s %s\n", id, strings.TrimSpace(strings.TrimPrefix(kf.text, "property="+id)))
+				knownLines = append(knownLines, strings.TrimSpace(strings.TrimPrefix(kf.text, "property="+id)))
 				knownPrinted[kf.ob] = true
 			}
 			total-- // known findings are not part of the claimed obligation set
@@ -324,7 +326,9 @@ func (run *PropRun) report(w *World, t0 time.Time) int {
 		"the VC generator (cmd/mqvc) and the SMT solvers z3 5.1.0 / z3 4.8.12 / cvc5 1.0.3",
 		"64-bit int/uint addition and multiplication treated as mathematical (offsets and lengths bounded by addressable memory; slice capacities <= 2^48)",
 		"package-level variables keep their initial values (_LEN nil, ErrMissingData non-nil)",
-		"methods are verified for non-nil receivers")
+		"methods are verified for non-nil receivers",
+		"memory safety of well-typed Go: slices, strings and pointers read from memory (also pointers held in interface values, at dynamic dispatch) refer to whole allocated objects; memory of different Go types does not alias",
+		"inside contract expressions (which never write) a string/[]byte conversion shares the bytes of its source instead of copying them")
 	for _, k := range sortedKeys(run.Trusted) {
 		if d, ok := externDoc[k]; ok {
 			trusted = append(trusted, "trusted model: "+d)
@@ -346,6 +350,7 @@ func (run *PropRun) report(w *World, t0 time.Time) int {
 		"solver_seconds":     round2(solverSecs),
 		"notes":              uniq(run.Notes),
 		"needed_full_hypotheses": slow,
+		"known_findings":     knownLines,
 		"extra":              run.Extra,
 		"bounded_standins":   run.Bounded,
 		"explanation":        run.Spec.Note,
